@@ -114,7 +114,13 @@ impl<'c> JoinReorderingRule<'c> {
                         let new_order: Vec<_> =
                             tables_with_card.iter().map(|(t, _)| *t).collect();
 
-                        if current_order != new_order {
+                        // Rebuilding the tree re-attaches each ON conjunct at the first join where
+                        // both sides it references are available. A conjunct that cannot be
+                        // placed exactly once (one-sided, unqualified, IS NULL, ...) would be
+                        // lost, so such chains keep their original order.
+                        if current_order != new_order
+                            && self.all_conditions_placeable(&new_order, &conditions)
+                        {
                             let new_tree =
                                 self.build_join_tree(&new_order, &conditions, arena);
                             return Ok(Some(new_tree));
@@ -361,8 +367,33 @@ impl<'c> JoinReorderingRule<'c> {
         result
     }
 
+    fn all_conditions_placeable<'a>(
+        &self,
+        ordered_tables: &[&'a LogicalOperator<'a>],
+        all_conditions: &[&'a Expr<'a>],
+    ) -> bool {
+        all_conditions.iter().all(|cond| {
+            let mut accumulated: HashSet<&str> = HashSet::new();
+            if let Some(first) = ordered_tables.first() {
+                self.add_table_names(first, &mut accumulated);
+            }
+            let mut placed = 0;
+            for right_table in ordered_tables.iter().skip(1).copied() {
+                let mut right: HashSet<&str> = HashSet::new();
+                self.add_table_names(right_table, &mut right);
+                if self.condition_applies(&accumulated, &right, cond) {
+                    placed += 1;
+                }
+                accumulated.extend(right);
+            }
+            placed == 1
+        })
+    }
+
     fn add_table_names<'a>(&self, plan: &'a LogicalOperator<'a>, tables: &mut HashSet<&'a str>) {
         match plan {
+            // a pushed-down filter keeps the table names of its input
+            LogicalOperator::Filter(filter) => self.add_table_names(filter.input, tables),
             LogicalOperator::Scan(scan) => {
                 tables.insert(scan.alias.unwrap_or(scan.table));
             }
